@@ -325,5 +325,17 @@ def run(chk, repo):
     from rules.shared import w2f_scan_complete
     chk.clauses.append('C08.i (shared R-COVER) every tryptophan of a peptide, the last residue included, gets its W>F candidate')
     w2f_scan_complete(chk, repo, 'C08.i')
+    # ------------------------------------------------------------------ j: open-ended ORFs are translated to the transcript end
+    chk.rule('C08.j', 'R-SIBLING: the transcript graph of callNovelORF is not end-truncated, in agreement with the ORF FASTA that lists an ORF without stop up to the transcript end', 1)
+    chk.clauses.append('C08.j callNovelORF builds its transcript graph without mRNA-end truncation (an ORF without stop codon runs to the transcript end, as get_orf_sequences lists it)')
+    for fq in ('cli.call_novel_orf:call_noncoding_peptide_main',):
+        fn_ = repo.func(fq)
+        chk.uses(fn_)
+        for c_ in G.find_calls(fn_.node, 'ThreeFrameTVG'):
+            v_ = kwarg(c_, 'mrna_end_nf')
+            ok_ = v_ is None or (isinstance(v_, ast.Constant) and v_.value is False)
+            chk.ob('C08.j', f"{fq}: ThreeFrameTVG(...) without end truncation", repo.loc(fn_, c_), ok_,
+                   f"the novel-ORF graph is built with mrna_end_nf={unparse(v_) if v_ is not None else None}: for mRNA_end_NF transcripts the peptides of an ORF that is still open at "
+                   "the transcript end are dropped, while the ORF FASTA (get_orf_sequences) still lists that ORF to the end", key=fq + '::mrna_end_nf', fn=fn_.qual)
 
 
